@@ -10,7 +10,7 @@ KHRONOS = "agreement with the Khronos grammar is decided against the pinned snap
 def run_tables(rep, prop, suite, seed, extra=None):
     trace = os.path.join(BUILD, "%s_%s.ndjson" % (prop.lower(), suite))
     info = vh(["drive-tables", "--decl", DECL, "--suite", suite, "--seed", str(seed), "--out", trace] + (extra or []), timeout=3000)
-    n, bad, dt = tlc_trace("TablesTrace.tla", "TablesTrace.cfg", trace, "%s_%s" % (prop.lower(), suite), env={"DECL": DECL}, timeout=3000)
+    n, bad, dt = tlc_trace("TablesTrace.tla", "TablesTrace.cfg", trace, "%s_%s" % (prop.lower(), suite), env={"DECL": DECL, "DISASMNAMES": os.path.join(SPEC, "DisasmNames.json")}, timeout=3000)
     events = read_trace(trace)
     for idx, code in bad:
         e = events[idx - 1]
